@@ -2,6 +2,7 @@ package rules
 
 import (
 	"fmt"
+	"go/types"
 	"strings"
 
 	"golang.org/x/tools/go/ssa"
@@ -65,12 +66,12 @@ func unfoldRules(c *core.Ctx) {
 	}
 	h := an.Headers[0]
 	l := countedLoop(an, h)
-	okLoop := l != nil && l.Step == 1 && l.Op == "<"
+	okLoop := l != nil && l.Step == 1 && (l.Op == "<" || l.Op == "!=" || l.Op == "rot<")
 	why := "the field loop is not a canonical ascending counted loop"
 	if okLoop {
 		s0, isK := l.Start.IntConst()
-		okLoop = isK && s0 == 0 && l.Bound.Op == "pure" && strings.HasSuffix(l.Bound.Aux, ".NumField") && paramOf(l.Bound.Args[0], uf, catP)
-		why = fmt.Sprintf("the loop runs from %s while i < %s, expected 0 .. cat.NumField()", short(l.Start), short(l.Bound))
+		okLoop = isK && s0 == 0 && l.Trip != nil && l.Trip.Op == "pure" && strings.HasSuffix(l.Trip.Aux, ".NumField") && paramOf(l.Trip.Args[0], uf, catP)
+		why = fmt.Sprintf("the loop runs from %s while i %s %s, expected 0 .. cat.NumField()", short(l.Start), l.Op, short(l.Bound))
 	}
 	c.Check(okLoop, "loop-canonical", "hseq.unfold", uf.Pos(), "i = 0 .. cat.NumField()-1", "%s", why)
 	if !okLoop {
@@ -90,6 +91,13 @@ func unfoldRules(c *core.Ctx) {
 	}
 	cur := an.Start[h].Reg(seqPhi)
 	for _, p := range an.Segs[nil] {
+		if p.To == nil {
+			// no field at all: the sequence argument is returned as it is
+			if p.Exit != ir.ExitReturn || len(p.Results) != 1 || !paramOf(p.Results[0], uf, seqP) || len(p.Events(ir.KCall)) > 0 {
+				c.Fail("append-once", "hseq.unfold", lastPos(p), "a type without fields must leave the listing as it is")
+			}
+			continue
+		}
 		if !paramOf(p.PhiOut[seqPhi], uf, seqP) {
 			c.Fail("append-once", "hseq.unfold", uf.Pos(), "the listing does not start from the sequence argument")
 		}
@@ -99,16 +107,25 @@ func unfoldRules(c *core.Ctx) {
 	okApp, okID, okDesc, okPure := true, true, true, true
 	nIter := 0
 	for _, p := range an.Segs[h] {
+		next := p.PhiOut[seqPhi]
 		if p.To != h {
 			// exit: returns the listing
-			if p.Exit != ir.ExitReturn || len(p.Results) != 1 || !ir.Same(p.Results[0], cur) {
+			if p.Exit != ir.ExitReturn || len(p.Results) != 1 {
 				okApp = false
 				c.Fail("append-once", "hseq.unfold", lastPos(p), "the loop exit does not return the accumulated listing")
+				continue
 			}
-			continue
+			if !l.Rotated() {
+				if !ir.Same(p.Results[0], cur) || len(p.Events(ir.KCall)) > 0 {
+					okApp = false
+					c.Fail("append-once", "hseq.unfold", lastPos(p), "the loop exit does not return the accumulated listing")
+				}
+				continue
+			}
+			// bottom-tested loop: the exit path carries the last iteration, its result is the listing after it
+			next = p.Results[0]
 		}
 		nIter++
-		next := p.PhiOut[seqPhi]
 		// find the appended literal on this path
 		var lit *ir.Term
 		nLit := 0
@@ -235,9 +252,17 @@ func fieldKeyRule(c *core.Ctx) {
 		}
 		r := p.Results[0]
 		// tag := strings.Split(t.StructField.Tag.Get("hseq"), ",")[0]
+		isGet := func(g *ir.Term) bool {
+			return g.Op == "pure" && strings.HasSuffix(g.Aux, "StructTag).Get") && len(g.Args) == 2 && g.Args[1].Aux == `"hseq"` &&
+				g.Args[0].Op == "field" && g.Args[0].Aux == "Tag"
+		}
 		isTag := func(t *ir.Term) bool {
 			var base, idx *ir.Term
 			switch {
+			case t.Op == "extract" && t.Aux == "0" && t.Args[0].Op == "pure" && t.Args[0].Aux == "strings.Cut":
+				// before, _, _ := strings.Cut(tag, ",") : the part before the first comma (the whole tag without one)
+				cut := t.Args[0]
+				return len(cut.Args) == 2 && cut.Args[1].Aux == `","` && isGet(cut.Args[0])
 			case t.Op == "load" && t.Args[0].Op == "iaddr":
 				base, idx = t.Args[0].Args[0], t.Args[0].Args[1]
 			case t.Op == "index":
@@ -252,9 +277,7 @@ func fieldKeyRule(c *core.Ctx) {
 			if base.Args[1].Aux != `","` {
 				return false
 			}
-			g := base.Args[0]
-			return g.Op == "pure" && strings.HasSuffix(g.Aux, "StructTag).Get") && len(g.Args) == 2 && g.Args[1].Aux == `"hseq"` &&
-				g.Args[0].Op == "field" && g.Args[0].Aux == "Tag"
+			return isGet(base.Args[0])
 		}
 		var tagT *ir.Term
 		emptyPol := 0
@@ -297,7 +320,7 @@ func firstMatchRules(c *core.Ctx) {
 			c.Undecided("first-match", cname, 0, "anchor not found")
 			continue
 		}
-		an := c.Analyze(fn)
+		an := c.AnalyzeLoops(fn)
 		if problems(c, "first-match", cname, an) {
 			continue
 		}
@@ -339,7 +362,7 @@ func firstMatchRules(c *core.Ctx) {
 					if at.Op == "bin" && at.Aux == "==" && len(at.Args) == 2 {
 						a, b := at.Args[0], at.Args[1]
 						isStr := func(t *ir.Term) bool { return t.Op == "pure" && strings.HasSuffix(t.Aux, ".String") }
-						if isStr(a) && isStr(b) || (strings.Contains(a.Key(), "TypeOf") != strings.Contains(b.Key(), "TypeOf") && !a.IsConst() && !b.IsConst() && !isStr(a)) {
+						if isStr(a) && isStr(b) || ((a.Op == "rtype") != (b.Op == "rtype") && !a.IsConst() && !b.IsConst() && !isStr(a)) {
 							if match == 0 || !s.Pol {
 								match = polInt(s.Pol)
 							}
@@ -432,18 +455,20 @@ func namesOrderRule(c *core.Ctx) {
 		c.Undecided("names-order", "hseq.New", 0, "anchor not found")
 		return
 	}
-	an := c.Analyze(fn)
+	uf, _ := unfoldFunc(c)
+	forName := c.W.Func("hseq", "ForName")
+	an := c.AnalyzeLoopsExcept(fn, forName, uf)
 	if problems(c, "names-order", "hseq.New", an) {
 		return
 	}
-	uf, _ := unfoldFunc(c)
-	forName := c.W.Func("hseq", "ForName")
 	names := fn.Params[len(fn.Params)-1]
 	isNames := func(t *ir.Term) bool { return t.Op == "param" && t.Src == ssa.Value(names) }
 	ok := true
 	var listing *ir.Term
 	nEmpty, nStore := 0, 0
 	var callInstr ssa.Value
+	var badIter []*ir.Path
+	var badN []int
 	for _, p := range an.AllPaths() {
 		for _, st := range p.Events(ir.KCall) {
 			if st.Static == uf {
@@ -504,16 +529,117 @@ func namesOrderRule(c *core.Ctx) {
 		}
 		if p.From != nil && p.To == p.From && nHere != 1 {
 			if l := countedLoop(an, p.From); l != nil && l.RangeOver != nil && isNames(l.RangeOver) {
-				ok = false
-				c.Fail("names-order", "hseq.New", lastPos(p), "an iteration over the names fills %d positions of the selection (want exactly 1)", nHere)
+				badIter = append(badIter, p)
+				badN = append(badN, nHere)
 			}
 		}
+	}
+	if nStore > 0 {
+		for i, p := range badIter {
+			ok = false
+			c.Fail("names-order", "hseq.New", lastPos(p), "an iteration over the names fills %d positions of the selection (want exactly 1)", badN[i])
+		}
+	}
+	if ok && nEmpty > 0 && nStore == 0 {
+		// the other way of filling positions in order: an initially empty selection grows by exactly one
+		// ForName(listing, names[i]) per iteration of an ascending range over the names (so len == i throughout)
+		nApp, why := namesAppendForm(c, fn, an, forName, callInstr, isNames)
+		if why != "" {
+			c.Fail("names-order", "hseq.New", fn.Pos(), "%s", why)
+			return
+		}
+		nStore = nApp
 	}
 	if ok && nEmpty > 0 && nStore > 0 {
 		c.Ok("names-order", "hseq.New", fn.Pos(), "nseq[i] = ForName(seq, names[i]); empty names => full listing")
 	} else if ok {
 		c.Fail("names-order", "hseq.New", fn.Pos(), "expected an empty-names path and a positional fill (found %d / %d)", nEmpty, nStore)
 	}
+}
+
+// appendedOne: v is the variadic argument slice of an append holding exactly one element stored on p; returns it.
+func appendedOne(p *ir.Path, v *ir.Term) *ir.Term {
+	if v == nil || v.Op != "slice" || v.Args[0].Op != "alloc" {
+		return nil
+	}
+	arr := v.Args[0]
+	n := 0
+	var x *ir.Term
+	for _, st := range p.Events(ir.KStore) {
+		if st.A[0].Op == "iaddr" && ir.Same(st.A[0].Args[0], arr) {
+			n++
+			if k, isK := st.A[0].Args[1].IntConst(); isK && k == 0 {
+				x = st.A[1]
+			}
+		}
+	}
+	if n != 1 {
+		return nil
+	}
+	return x
+}
+
+func namesAppendForm(c *core.Ctx, fn *ssa.Function, an *ir.Analysis, forName *ssa.Function, callInstr ssa.Value, isNames func(*ir.Term) bool) (int, string) {
+	for _, h := range an.Headers {
+		l := countedLoop(an, h)
+		if l == nil || l.RangeOver == nil || !isNames(l.RangeOver) || l.Rotated() {
+			continue
+		}
+		idx := l.Index(an)
+		listing := an.Start[h].Reg(callInstr)
+		for _, in := range h.Instrs {
+			phi, isPhi := in.(*ssa.Phi)
+			if !isPhi {
+				break
+			}
+			if _, isSlice := phi.Type().Underlying().(*types.Slice); !isSlice || phi == l.Phi {
+				continue
+			}
+			cur := an.Start[h].Reg(phi)
+			// starts empty
+			for _, ps := range an.Segs {
+				for _, p := range ps {
+					if p.To != h || (p.From != nil && ir.LoopBlocks(h)[p.From]) {
+						continue
+					}
+					v := p.PhiOut[phi]
+					empty := v != nil && (v.Op == "mkslice" && len(v.Args) > 0 && v.Args[0].Aux == "0" || v.IsConst() && v.Aux == "nil")
+					if !empty {
+						return 0, fmt.Sprintf("the selection starts as %s, expected an empty slice", short(v))
+					}
+				}
+			}
+			n := 0
+			for _, p := range an.Segs[h] {
+				if p.To != h {
+					if p.Exit != ir.ExitReturn || len(p.Results) != 1 || !ir.Same(p.Results[0], cur) {
+						return 0, "after the names are exhausted the function does not return the selection built so far"
+					}
+					continue
+				}
+				v := p.PhiOut[phi]
+				if v == nil || v.Op != "append" || len(v.Args) != 2 || !ir.Same(v.Args[0], cur) {
+					return 0, fmt.Sprintf("an iteration over the names turns the selection into %s, expected one append to it", short(v))
+				}
+				x := appendedOne(p, v.Args[1])
+				good := false
+				if x != nil {
+					if m, callee, args, isC := callParts(x); isC && m == "" && callee != nil && callee.Fn == forName && len(args) == 2 {
+						nm := args[1]
+						good = ir.Same(args[0], listing) && nm.Op == "load" && nm.Args[0].Op == "iaddr" && isNames(nm.Args[0].Args[0]) && ir.Same(nm.Args[0].Args[1], idx)
+					}
+				}
+				if !good {
+					return 0, fmt.Sprintf("an iteration over the names appends %s, expected ForName(listing, names[i]) of the iteration's own name", short(x))
+				}
+				n++
+			}
+			if n > 0 {
+				return n, ""
+			}
+		}
+	}
+	return 0, "expected a positional fill of the selection (indexed stores or one append per name), found none"
 }
 
 func fmapRule(c *core.Ctx) {
